@@ -343,6 +343,24 @@ func runC13(w *fw.W) {
 						vs.add(key+"|accessor:abandon", fmt.Sprintf("%s\nwrapped: E.abandon → %s, must re-raise %s: %s", desc, ab.Outcome(), u.ErrKind, u.ErrMsg), c.recv+body)
 					}
 				}
+				// the same steps applied to the wrapped receiver through a list chain (`[v.try]@f@g`): every element is
+				// a `v.try` and goes through the steps exactly like the scalar spelling
+				listBody, allDot := "", true
+				for _, st := range c.steps {
+					if !strings.HasPrefix(st.src, ".") || strings.HasPrefix(st.src, "..") {
+						allDot = false
+						break
+					}
+					listBody += "@" + st.src[1:]
+				}
+				if allDot && len(c.steps) > 0 {
+					lo := ip.Run(c13prelude+"L := ["+c.recv+".try]"+listBody+"\n\"--\".p\nL@A", interp.Options{})
+					so := ip.Run(wrappedSrc+"[E.A]", interp.Options{})
+					n++
+					if so.OK() && (lo.Outcome() != so.Outcome() || lo.Stdout != so.Stdout) {
+						vs.add(key+"|list-chain-spelling", fmt.Sprintf("%s\nwrapped: [%s.try%s.A] → %s (stdout %q)\nthrough a list chain: [%s.try]%s@A → %s (stdout %q) %s", desc, c.recv, body, so.Outcome(), so.Stdout, c.recv, listBody, truncateMid(lo.Outcome(), 300), lo.Stdout, firstLine(lo.ParseErr)), c.recv+body)
+					}
+				}
 				if sample == "" && u.Err != nil && len(c.steps) > 1 {
 					sample = fmt.Sprintf("%s%s fails with %s: %s; %s.try… → %s ✓", c.recv, body, u.ErrKind, u.ErrMsg, c.recv, truncateMid(o.Inspect, 160))
 				}
